@@ -249,6 +249,8 @@ class Evaluator:
             return None
         if isinstance(s, ast.If):
             c = self.ev(s.test)
+            if isinstance(c, T) and c.exact is not None:
+                c = bool(c.exact)  # truthiness of a known integer (`if val:`)
             if not isinstance(c, bool):
                 raise Unsupported("branch condition `%s` at line %d is not decided by constant propagation" % (node_src(s.test), s.lineno))
             return self.block(s.body if c else s.orelse)
@@ -303,6 +305,8 @@ class Evaluator:
             v = self.ev(e.operand)
             if isinstance(e.op, ast.Not) and isinstance(v, bool):
                 return not v
+            if isinstance(e.op, ast.Not) and isinstance(v, T) and v.exact is not None:
+                return not v.exact
             if isinstance(e.op, ast.Invert) and isinstance(v, T) and v.exact is not None:
                 return T(const(~v.exact), None, exact=~v.exact)
             if isinstance(e.op, ast.USub) and isinstance(v, T) and v.exact is not None:
